@@ -75,6 +75,10 @@ fn values(depth: usize, width: usize, thorough: bool, cap: usize) -> Vec<RespVec
 #[derive(Debug, Clone, PartialEq)]
 enum Ref {
     Valid(RespVec, usize),
+    /// not RESP by the letter of the specification, but a lenient decoder can still only mean this
+    /// value ('+' sign or leading zeros in a length, "-0", a lone CR inside a line): the real
+    /// decoder may reject it or return exactly this value
+    Lenient(RespVec, usize),
     Incomplete,
     Invalid(&'static str),
 }
@@ -103,10 +107,12 @@ fn ref_parse(b: &[u8]) -> Ref {
     };
     let line = &rest[..line_end];
     let after = 1 + line_end + 2;
+    let lone_cr = line.contains(&b'\r');
+    let mk = |v: RespVec, n: usize| if lone_cr { Ref::Lenient(v, n) } else { Ref::Valid(v, n) };
     match t {
-        b'+' => Ref::Valid(Resp::Simple(line.to_vec()), after),
-        b'-' => Ref::Valid(Resp::Error(line.to_vec()), after),
-        b':' => Ref::Valid(Resp::Integer(line.to_vec()), after),
+        b'+' => mk(Resp::Simple(line.to_vec()), after),
+        b'-' => mk(Resp::Error(line.to_vec()), after),
+        b':' => mk(Resp::Integer(line.to_vec()), after),
         _ => {
             // decimal with optional sign (a leading '+' yields the intended value and is tolerated)
             let digits = if line.first() == Some(&b'+') || line.first() == Some(&b'-') { &line[1..] } else { line };
@@ -123,9 +129,14 @@ fn ref_parse(b: &[u8]) -> Ref {
             if len < -1 {
                 return Ref::Invalid("bad-length:below-minus-one");
             }
+            let canonical = std::str::from_utf8(line).map(|t| t == len.to_string()).unwrap_or(false);
+            let wrap = |r: Ref| match r {
+                Ref::Valid(v, n) if !canonical => Ref::Lenient(v, n),
+                other => other,
+            };
             if t == b'$' {
                 if len < 0 {
-                    return Ref::Valid(Resp::Bulk(BulkStr::Nil), after);
+                    return wrap(Ref::Valid(Resp::Bulk(BulkStr::Nil), after));
                 }
                 let n = len as usize;
                 let body = &b[after..];
@@ -138,23 +149,33 @@ fn ref_parse(b: &[u8]) -> Ref {
                 if body.len() < n + 2 {
                     return Ref::Incomplete;
                 }
-                Ref::Valid(Resp::Bulk(BulkStr::Str(body[..n].to_vec())), after + n + 2)
+                wrap(Ref::Valid(Resp::Bulk(BulkStr::Str(body[..n].to_vec())), after + n + 2))
             } else {
                 if len < 0 {
-                    return Ref::Valid(Resp::Arr(Array::Nil), after);
+                    return wrap(Ref::Valid(Resp::Arr(Array::Nil), after));
                 }
                 let mut pos = after;
                 let mut els = vec![];
+                let mut lenient = false;
                 for _ in 0..len {
                     match ref_parse(&b[pos..]) {
                         Ref::Valid(v, n) => {
                             els.push(v);
                             pos += n;
                         }
+                        Ref::Lenient(v, n) => {
+                            lenient = true;
+                            els.push(v);
+                            pos += n;
+                        }
                         other => return other,
                     }
                 }
-                Ref::Valid(Resp::Arr(Array::Arr(els)), pos)
+                if lenient {
+                    Ref::Lenient(Resp::Arr(Array::Arr(els)), pos)
+                } else {
+                    wrap(Ref::Valid(Resp::Arr(Array::Arr(els)), pos))
+                }
             }
         }
     }
@@ -269,6 +290,14 @@ fn judge_raw(inp: &[u8]) -> (&'static str, Option<(String, String)>) {
         }
         (Ref::Valid(v, _), Ok(None)) => ("valid", Some(("raw:valid-input-not-decoded".into(), format!("{}: expected {:?}, decoder wants more data", shown, v)))),
         (Ref::Valid(v, _), Err(_)) => ("valid", Some(("raw:valid-input-rejected".into(), format!("{}: expected {:?}, decoder reports protocol error", shown, v)))),
+        (Ref::Lenient(v, n), Ok(Some(g))) => {
+            if &g != v || consumed != *n {
+                ("lenient", Some(("raw:lenient-input-decoded-differently".into(), format!("{}: a lenient reading can only mean {:?} ({} bytes) but the decoder returned {:?} ({} bytes)", shown, v, n, g, consumed))))
+            } else {
+                ("lenient", None)
+            }
+        }
+        (Ref::Lenient(_, _), _) => ("lenient", None),
         (Ref::Incomplete, Ok(None)) => {
             if consumed != 0 {
                 ("incomplete", Some(("raw:incomplete-input-consumed".into(), format!("{}: consumed {} bytes of an incomplete packet", shown, consumed))))
@@ -481,50 +510,11 @@ fn run_c15(cli: &Cli) -> (Value, Vec<Violation>) {
         let mut s = start;
         rec(&mut s, alpha, maxlen, &mut |inp: &[u8]| {
             n_raw += 1;
-            let r = ref_parse(inp);
-            let mut buf = BytesMut::from(inp);
-            let got = RespVec::decode(&mut buf, ());
-            let consumed = inp.len() - buf.len();
-            let mut push = |k: String, d: String| {
+            let (class, v) = judge_raw(inp);
+            *verdicts.entry(class).or_default() += 1;
+            if let Some((k, d)) = v {
                 if raw_viol.len() < 200 {
                     raw_viol.push((k, d, inp.to_vec()));
-                }
-            };
-            match (&r, got) {
-                (Ref::Valid(v, n), Ok(Some(g))) => {
-                    *verdicts.entry("valid").or_default() += 1;
-                    if &g != v || consumed != *n {
-                        push("raw:valid-input-decoded-differently".into(), format!("{:?}: expected {:?} ({} bytes) got {:?} ({} bytes)", inp, v, n, g, consumed));
-                    }
-                }
-                (Ref::Valid(v, _), Ok(None)) => {
-                    *verdicts.entry("valid").or_default() += 1;
-                    push("raw:valid-input-not-decoded".into(), format!("{:?}: expected {:?}, decoder wants more data", inp, v));
-                }
-                (Ref::Valid(v, _), Err(_)) => {
-                    *verdicts.entry("valid").or_default() += 1;
-                    push("raw:valid-input-rejected".into(), format!("{:?}: expected {:?}, decoder reports protocol error", inp, v));
-                }
-                (Ref::Incomplete, Ok(None)) => {
-                    *verdicts.entry("incomplete").or_default() += 1;
-                    if consumed != 0 {
-                        push("raw:incomplete-input-consumed".into(), format!("{:?}: consumed {} bytes of an incomplete packet", inp, consumed));
-                    }
-                }
-                (Ref::Incomplete, Ok(Some(g))) => {
-                    *verdicts.entry("incomplete").or_default() += 1;
-                    push("raw:incomplete-input-yields-value".into(), format!("{:?}: incomplete packet decoded as {:?}", inp, g));
-                }
-                (Ref::Incomplete, Err(_)) => {
-                    *verdicts.entry("incomplete").or_default() += 1;
-                    push("raw:incomplete-input-rejected".into(), format!("{:?}: a prefix of a valid packet is reported as protocol error", inp));
-                }
-                (Ref::Invalid(why), Ok(Some(g))) => {
-                    *verdicts.entry("invalid").or_default() += 1;
-                    push(format!("raw:non-resp-accepted:{}", why), format!("{:?} is not RESP ({}) but decodes as {:?} consuming {} bytes", inp, why, g, consumed));
-                }
-                (Ref::Invalid(_), _) => {
-                    *verdicts.entry("invalid").or_default() += 1;
                 }
             }
         });
@@ -552,19 +542,10 @@ fn run_c15(cli: &Cli) -> (Value, Vec<Violation>) {
         let base = s.len();
         rec(&mut s, alpha, base + 3, &mut |inp: &[u8]| {
             n_raw += 1;
-            let r = ref_parse(inp);
-            let mut buf = BytesMut::from(inp);
-            let got = RespVec::decode(&mut buf, ());
-            let consumed = inp.len() - buf.len();
-            match (&r, got) {
-                (Ref::Valid(v, n), Ok(Some(g))) if &g == v && consumed == *n => {}
-                (Ref::Valid(v, n), other) => raw_viol.push(("raw:valid-input-decoded-differently".into(), format!("{:?}: expected {:?} ({} bytes) got {:?}", inp, v, n, other.map(|o| o.is_some())), inp.to_vec())),
-                (Ref::Incomplete, Ok(None)) if consumed == 0 => {}
-                (Ref::Incomplete, Ok(None)) => raw_viol.push(("raw:incomplete-input-consumed".into(), format!("{:?}", inp), inp.to_vec())),
-                (Ref::Incomplete, Ok(Some(g))) => raw_viol.push(("raw:incomplete-input-yields-value".into(), format!("{:?}: incomplete packet decoded as {:?}", inp, g), inp.to_vec())),
-                (Ref::Incomplete, Err(_)) => raw_viol.push(("raw:incomplete-input-rejected".into(), format!("{:?}: a prefix of a valid packet is reported as protocol error", inp), inp.to_vec())),
-                (Ref::Invalid(why), Ok(Some(g))) => raw_viol.push((format!("raw:non-resp-accepted:{}", why), format!("{:?} is not RESP ({}) but decodes as {:?} consuming {} bytes", inp, why, g, consumed), inp.to_vec())),
-                (Ref::Invalid(_), _) => {}
+            let (class, v) = judge_raw(inp);
+            *verdicts.entry(class).or_default() += 1;
+            if let Some((k, d)) = v {
+                raw_viol.push((k, d, inp.to_vec()));
             }
         });
     }
